@@ -11,6 +11,10 @@ META = {}
 JOBS = {}
 CBMC = {}
 
+# h and l in a right-to-left line (used by C07 and C17)
+_motions_rtl = {'name': 'motions_rtl_line', 'harness': 'c07_mot.c', 'units': 'ALL', 'defs': {'NMOT': 39, 'ORDERON': 1, 'BUFSEL': 3, 'MOTMASK': '0x17ULL'},
+                'expect_reach': ['end', 'asserted'], 'timeout': {'quick': 280, 'thorough': 1700}, 'max_steps': 60000000, 'validate': {'quick': 4, 'thorough': 8}}
+
 # ---------------------------------------------------------------- C16
 META['C16'] = {
     'bounds': {'quick': 'all well-formed UTF-8 strings of <= 5 bytes (every scalar value in every position); regex.c decoders on every 4-byte window',
@@ -183,7 +187,7 @@ META['C14'] = {
 }
 JOBS['C14'] = [
     {'name': 'substitute', 'harness': 'c14_sub.c', 'units': 'ALL',
-     'defs': {'quick': {'LL': 2, 'NP': 2}, 'thorough': {'LL': 3, 'NP': 2, 'SYMIC': 1, 'MAXREF': 3}}, 'variants': [{'TSET': 0}, {'TSET': 1}],
+     'defs': {'quick': {'LL': 2, 'NP': 2}, 'thorough': {'LL': 3, 'NP': 2, 'SYMIC': 1, 'MAXREF': 3}}, 'variants': [{'TSET': 0}, {'TSET': 1}, {'TSET': 2}],
      'expect_reach': ['end', 'match'], 'timeout': {'quick': 280, 'thorough': 1700}},
 ]
 
@@ -249,6 +253,7 @@ JOBS['C17'] = [
      'variants': [{'ORDER': 1}, {'ORDER': 2}], 'expect_reach': ['end', 'reorder-path'], 'timeout': {'quick': 280, 'thorough': 1700}},
     {'name': 'layout_ltr_runs_in_rtl', 'harness': 'c17_ren.c', 'units': _ren_units, 'defs': {'quick': {'LL': 4, 'ORDER': 2, 'RTLCTX': 1}, 'thorough': {'LL': 5, 'ORDER': 2, 'RTLCTX': 1}},
      'expect_reach': ['end', 'reorder-path'], 'timeout': {'quick': 280, 'thorough': 1700}},
+    _motions_rtl,	# h and l in a right-to-left line: the character displayed to the left / right (the harness of C07)
     {'name': 'width_tables', 'harness': 'c17_tab.c', 'units': [], 'defs': {}, 'expect_reach': ['end'], 'timeout': {'quick': 280, 'thorough': 1700}},
 ]
 META['C18'] = {
@@ -366,6 +371,7 @@ JOBS['C07'] = [
     # the same with the order option on (multi-byte lines then take the reordering path of ren_position): column motions on the buffer with a wide character and a tab
     {'name': 'motions_order_on', 'harness': 'c07_mot.c', 'units': 'ALL', 'defs': {'NMOT': 39, 'ORDERON': 1, 'BUFSEL': 1, 'MOTMASK': '0x70000000f3ULL'},
      'expect_reach': ['end', 'asserted'], 'timeout': {'quick': 290, 'thorough': 1700}, 'max_steps': 60000000, 'validate': {'quick': 4, 'thorough': 8}},
+    _motions_rtl,
     {'name': 'motions', 'harness': 'c07_mot.c', 'units': 'ALL', 'defs': {'quick': {'NMOT': 39}, 'thorough': {'LL': 2, 'NMOT': 39, 'SYMTEXT': 1, 'NCNT': 3}}, 'heavy': True,
      'expect_reach': ['end', 'asserted'], 'timeout': {'quick': 290, 'thorough': 3000}, 'max_steps': 60000000, 'validate': {'quick': 8, 'thorough': 16}},
 ]
